@@ -1461,6 +1461,8 @@ where
                         //              ReadyForQuery
 
                         // Iterate over our extended protocol data that we've buffered
+                        let buffered_before = self.buffer.len();
+
                         while let Some(protocol_data) =
                             self.extended_protocol_data_buffer.pop_front()
                         {
@@ -1568,6 +1570,18 @@ where
                                     }
                                 }
                             }
+                        }
+
+                        // In the middle of COPY FROM STDIN the server ignores Sync (and Flush). If the Sync
+                        // is all we have for it, nothing would ever answer and we would wait on the
+                        // server for ever, keeping it away from everybody else.
+                        if server.in_copy_mode() && self.buffer.len() == buffered_before {
+                            if !self.response_message_queue_buffer.is_empty() {
+                                write_all_flush(&mut self.write, &self.response_message_queue_buffer)
+                                    .await?;
+                                self.response_message_queue_buffer.clear();
+                            }
+                            continue;
                         }
 
                         // Add the sync message
